@@ -118,6 +118,9 @@ func GenConfig(prop string, g *Gen, tier string) Config {
 	c.Format = []string{FmtBinary, FmtMarshaler}[g.Intn(2)]
 	c.Marshaler = "json"
 	c.KeyD = allKeyDialects[g.Intn(len(allKeyDialects))]
+	if c.KeyD == "lstruct" && g.Intn(2) == 0 {
+		c.KeyD = "struct" // keep the uncomparable struct key at half the share of the others
+	}
 	c.ValD = []string{"int", "int", "string", "struct", "bytes", "lval", "nil", "ptr", "int", "bigstr"}[g.Intn(10)]
 	c.Disks = 1
 	c.U = []int{8, 12, 20, 40, 80, 200}[g.Intn(6)]
